@@ -160,6 +160,16 @@ def verify_function(prop, spec):
                     ex.oblige(f"{ex.qualname}/frame.{f}", z3.ForAll([r], z3.Implies(prop.alloc0(r), z3.Select(x, r) == z3.Select(y, r))), "frame")
 
     ex.explore(run_once)
+    # reachability report: statements of the verified text that no explored path executes (under the
+    # contract's preconditions: dead branches such as defensive raises -- or a sign of an over-strong
+    # precondition; listed in the evidence so that they can be inspected)
+    ex.unreached = []
+    for top in body:
+        for n in ast.walk(top):
+            if isinstance(n, ast.stmt) and not isinstance(n, (ast.FunctionDef, ast.ClassDef)) and id(n) not in ex.covered and not ex.is_dropped(n):
+                if any(isinstance(p_, ast.FunctionDef) and p_ is not fnode and n in ast.walk(p_) for p_ in ex.local_defs.values()):
+                    continue  # inside a nested def that is under its own contract / inlined elsewhere
+                ex.unreached.append(f"{ex.qualname}:+{n.lineno - fnode.lineno}: {' '.join(ast.unparse(n).split())[:70]}")
     obs = []
     for name, lst in ex.obligations.items():
         obs.extend(lst)
